@@ -9,6 +9,7 @@ import CallbagModel.Inv.FromIter
 import CallbagModel.Inv.Fuse
 import CallbagModel.Inv.Merge
 import CallbagModel.Inv.MonSound
+import CallbagModel.Inv.PlugSafe
 import CallbagModel.Inv.Readable
 import CallbagModel.Inv.Relay
 import CallbagModel.Inv.Share
@@ -78,6 +79,10 @@ theorem C01_pipeline {S1 L1 S2 L2 α β γ : Type} {M1 : Machine S1 L1 α β} {M
 theorem C01_closed_pipeline {S1 L1 S2 L2 α β γ : Type} {Msrc : Machine S1 L1 α β} {Mmid : Machine S2 L2 β γ} (hsrc : UpSide Msrc) (hmid : Pipeable Mmid) :
     ∀ s, SReach (compose (compose Msrc Mmid) (ForEach.machine γ)) s → SafeFor 1 s :=
   fun s hs => safeFor_of_basicSafe _ s hs (closed_pipeline_safe hsrc hmid s hs) 1 (by decide)
+
+theorem C01_plugged {S1 L1 S2 L2 α β γ : Type} {M1 : Machine S1 L1 α β} {M2 : Machine S2 L2 β γ} (H : PlugSafe.HypP M1 M2) (j : Nat) :
+    ∀ s, SReach (plug j M1 M2) s → SafeFor 1 s :=
+  fun s hs => safeFor_of_basicSafe _ s hs (PlugSafe.plug_basicSafe H j s hs) 1 (by decide)
 
 
 /-- `share`, EVERY conformant environment (nested fan-out included): the only phase-level violations share can commit are deliveries
